@@ -19,18 +19,65 @@
        indicator's leastContributor returns an index of minimal EXACT hypervolume contribution
        w.r.t. the reference point r (contribution measured inside the front it is given), then
        hv_spec r never decreases and the size stays mu; such a leastContributor exists (hv_lc).
+     * the indicator classes AS CODED (C14Ind.v, run next to the C++ on every check, stream I and field mown= of stream S):
+       - AdditiveEpsilonIndicator: leastContributors is a valid oracle; the inner loop computes
+         min_{j<>i} max_k (f_j[k] - f_i[k]) (C14_epsilon_value_is_definition, C14_max_diff_is_largest_component) and
+         leastContributor is the FIRST index of minimal value (C14_epsilon_least_contributor_first_minimum);
+       - HypervolumeIndicator (dispatch on setReference / number of objectives, 2-D routines = C13's contrib2d_ref /
+         contrib2d_noref + the 2-slot heap of bestContributors(front,1) + appendExtremePoints): valid oracle with and
+         without reference point for any 3-D/MD routine that returns an index into its argument; for 2 objectives with
+         reference point it returns an index of minimal EXACT contribution contrib_spec on every mutually non-dominated
+         front below the reference point (uses C13_contrib2d_value_per_index);
+       - CrowdingDistance (model over an abstract carrier: floats in the driver): valid oracle for every carrier,
+         comparison and sort routine; rational instance = the DEFINITION of the crowding distance for every sort routine
+         that returns a key-ordered permutation (std::sort leaves ties unspecified) and `keep` > number of objectives:
+         a front member that is first or last of some per-objective order of front ++ archive has distance `keep`, every
+         other one has sum_i (next_i - prev_i)/(max_i - min_i) (C14_crowding_distance_is_definition), leastContributor
+         is the FIRST member of minimal distance (C14_crowding_least_contributor_first_minimum); the model's insertion
+         sort is such a routine (C14_crowding_model_sort_ok).  In Q a zero range gives the term 0; the C++ computes 0/0 =
+         NaN there -- see "NOT PROVED" below;
+       - NSGA3Indicator (C14Nsga3.v, abstract carrier; plane solver = Section variable): the niche-selection loop never
+         exhausts its fuel (every round assigns a point or retires a reference direction) and leastContributors returns K
+         distinct indices into the front for every solver answer, PROVIDED there is a reference direction and every
+         association distance compares below DBL_MAX (n3_finite: no NaN/overflow -- what commit 87210a93 restores for a
+         constant objective); association = a reference direction of the point itself (C14_nsga3_association);
+       - the selection theorems need the indicator to be valid only on the one call the selection makes
+         (C14_selection_valid_on_the_call_made), which covers NSGA3Indicator whenever n3_finite holds for that call;
+     * variation and mating-selection operators AS CODED (C14Var.v, random draws explicit, std::pow / std::abs arbitrary
+       functions; run next to the C++ on every check, stream V, bit-exact on floats):
+       - SimulatedBinaryCrossover / PolynomialMutator: for every sequence of draws, crossover probability and distribution
+         index, children of parents inside the box lie inside the box (C14_sbx_children_in_box,
+         C14_polynomial_mutation_child_in_box: "bounded variation operators never report a point outside the box"); every
+         coordinate the operators recompute is inside the box even if the parent's was not (the clipping);
+       - TournamentSelection<RankOrdering>: the winner is a drawn individual of least rank among the drawn ones;
+       - ElitistSelection: exactly mu individuals marked, none of them after an unmarked one in the ordering, for every
+         sort routine returning an ordered permutation (the model's insertion sort is one);
+       These are statements over Q.  On doubles the clipping does not catch NaN: PolynomialMutator on a coordinate with
+       lower = upper computes 0/0 (see NOT PROVED);
+     * the steady-state theorem with its hypothesis restricted to the fronts the selection can hand over
+       (C14_steady_state_hv_monotone_front_hypothesis) and DISCHARGED for the coded 2-objective HypervolumeIndicator path
+       (C14_steady_state_hv_monotone_coded_indicator_2d: hypotheses only on the data: 2 objectives, all points <= ref);
    ASSUMPTION of the last theorem (boundary of the claim, see DESIGN.md C14): the indicator is
    configured with the SAME fixed reference point (indicator().setReference(r)); with the default
    (no reference) the implicit reference moves and the statement is false for the code.
    NOT PROVED, only compared/monitored on every run (tools/c14.py):
      * that the C++ contribution routines return a least contributor (exact brute-force check
        in Python on small-integer fronts, and against contribs_spec extracted from Coq);
-     * NSGA3Indicator / CrowdingDistance choices (only validity of the returned index set);
+     * 3-D / MD hypervolume contributions inside HypervolumeIndicator (Section variable `other`);
+     * CrowdingDistance when some objective is constant over front ++ archive: the C++ divides 0/0, the interior members
+       get NaN and std::min_element may then return a boundary member (the float instance of the model reproduces this
+       bit for bit and is compared; the rational theorem does not speak about NaN); counted in the evidence notes;
+     * PolynomialMutator on a degenerate coordinate lower(i) = upper(i): the C++ yields NaN (0/0, not caught by the clipping);
+       the float instance of the model reproduces it; reported to the lead, counted in the evidence notes;
+     * NSGA3Indicator: the plane solver (its answer is re-derived by the harness and handed to the model), and the
+       meaning of the normalisation (only validity of the index set is proved);
      * the per-generation invariants of MOCMA, SteadyStateMOCMA, SMSEMOA, RealCodedNSGAII/III, MOEAD,
        RVEA (size, value = objective at the closest feasible point, box, hypervolume monotone). *)
-From Coq Require Import List ZArith Arith.
-From SharkV Require Import ListAux C13Model C13Proofs C14Model C14Proofs.
+From Coq Require Import List ZArith Arith QArith.
+From SharkV Require Import ListAux C13Model C13Proofs C13ProofsContrib C14Model C14Proofs C14Ind C14IndProofs.
+From SharkV Require Import C14Nsga3 C14Nsga3Proofs C14CrowdProofs C14Var C14VarProofs.
 Import ListNotations.
+Close Scope Q_scope.
 
 Theorem C14_indicator_selection_count :
   forall lcs d S mu, valid_oracle lcs -> same_dim d S -> 1 <= mu <= length S ->
@@ -121,3 +168,281 @@ Theorem C14_steady_state_example :
   hv_spec [6; 6]%Z [[1; 5]; [2; 2]; [5; 1]]%Z = 18%Z.
 Proof. exact steady_state_example. Qed.
 Print Assumptions C14_steady_state_example.
+
+(* ------------------------------------------------------------------------------------------ *)
+(* the indicator classes as coded (C14Ind.v) *)
+
+Theorem C14_epsilon_indicator_valid : valid_oracle eps_lcs.
+Proof. exact eps_lcs_valid. Qed.
+Print Assumptions C14_epsilon_indicator_valid.
+
+Theorem C14_max_diff_is_largest_component :
+  forall a b : point, length a = length b -> 1 <= length a ->
+    (exists k, k < length a /\ max_diff a b = (nth k a 0 - nth k b 0)%Z) /\
+    forall k, k < length a -> (nth k a 0 - nth k b 0 <= max_diff a b)%Z.
+Proof. exact max_diff_spec. Qed.
+Print Assumptions C14_max_diff_is_largest_component.
+
+Theorem C14_epsilon_value_is_definition :
+  forall (F : list point) i,
+    match eps_result F i with
+    | None => forall j, j < length F -> j = i
+    | Some v => (exists j, j < length F /\ j <> i /\ v = max_diff (nth j F []) (nth i F [])) /\
+                forall j, j < length F -> j <> i -> (v <= max_diff (nth j F []) (nth i F []))%Z
+    end.
+Proof. exact eps_result_spec. Qed.
+Print Assumptions C14_epsilon_value_is_definition.
+
+Theorem C14_epsilon_least_contributor_first_minimum :
+  forall F A : list point, F <> [] ->
+    let i0 := eps_lc F A in
+    i0 < length F /\
+    (forall j, j < length F -> ez_leb (eps_result F i0) (eps_result F j) = true) /\
+    (forall j, j < i0 -> ez_ltb (eps_result F i0) (eps_result F j) = true).
+Proof. exact eps_lc_spec. Qed.
+Print Assumptions C14_epsilon_least_contributor_first_minimum.
+
+Theorem C14_hypervolume_indicator_valid :
+  forall other : point -> list point -> nat,
+    (forall ref F, F <> [] -> other ref F < length F) ->
+    forall ref, valid_oracle (hv_ind_lcs other ref).
+Proof. exact hv_ind_lcs_valid. Qed.
+Print Assumptions C14_hypervolume_indicator_valid.
+
+Theorem C14_hypervolume_indicator_2d_least_contribution :
+  forall other ref F A, length ref = 2 -> F <> [] -> below_ref ref F -> mutually_nondominated F ->
+    hv_ind_lc other ref F A < length F /\
+    forall j, j < length F -> (contrib_spec ref F (hv_ind_lc other ref F A) <= contrib_spec ref F j)%Z.
+Proof. exact hv_ind_lc_2d_spec. Qed.
+Print Assumptions C14_hypervolume_indicator_2d_least_contribution.
+
+Theorem C14_crowding_distance_valid :
+  forall (T : Type) (zero keep : T) (add sub div : T -> T -> T) (ltb eqb : T -> T -> bool)
+         (sort : list (T * nat) -> list (T * nat)),
+    valid_oracle_g (cd_lcs T zero keep add sub div ltb eqb sort).
+Proof. exact cd_lcs_valid. Qed.
+Print Assumptions C14_crowding_distance_valid.
+
+(* the proved selection theorems apply to the coded indicators without further hypotheses *)
+Theorem C14_selection_with_coded_indicators :
+  forall other : point -> list point -> nat,
+    (forall ref F, F <> [] -> other ref F < length F) ->
+  forall lcs, (lcs = eps_lcs \/ exists ref, lcs = hv_ind_lcs other ref) ->
+  forall d S mu, same_dim d S -> 1 <= mu <= length S ->
+    let r := fst (indicator_selection lcs S mu) in
+    let sel := o_sel (snd (indicator_selection lcs S mu)) in
+    count_true sel = mu /\ length sel = length S /\ is_rank_assignment S r /\
+    forall i j, i < length S -> j < length S ->
+      nth i sel false = true -> nth j sel false = false -> nth i r 0 <= nth j r 0.
+Proof. exact selection_with_coded_indicators. Qed.
+Print Assumptions C14_selection_with_coded_indicators.
+
+Theorem C14_steady_state_hv_monotone_front_hypothesis :
+  forall (lc : list point -> list point -> nat) (ref : point) (d : nat),
+    (forall F A, F <> [] -> lc F A < length F) ->
+    (forall F A, F <> [] -> same_dim d F -> below_ref ref F -> mutually_nondominated F ->
+       forall j, j < length F -> (contrib_spec ref F (lc F A) <= contrib_spec ref F j)%Z) ->
+    forall P o, same_dim d (P ++ [o]) -> below_ref ref (P ++ [o]) -> 1 <= length P ->
+      (hv_spec ref P <= hv_spec ref (ss_step lc P o))%Z /\ length (ss_step lc P o) = length P.
+Proof. exact steady_state_step_front. Qed.
+Print Assumptions C14_steady_state_hv_monotone_front_hypothesis.
+
+Theorem C14_steady_state_hv_monotone_coded_indicator_2d :
+  forall other ref P o,
+    length ref = 2 -> same_dim 2 (P ++ [o]) -> below_ref ref (P ++ [o]) -> 1 <= length P ->
+    (hv_spec ref P <= hv_spec ref (ss_step (hv_ind_lc other ref) P o))%Z /\
+    length (ss_step (hv_ind_lc other ref) P o) = length P.
+Proof. exact steady_state_hv_indicator_2d. Qed.
+Print Assumptions C14_steady_state_hv_monotone_coded_indicator_2d.
+
+Theorem C14_coded_indicator_examples :
+  let F := [[1; 5]; [2; 3]; [4; 2]; [5; 1]]%Z in
+  eps_lcs F [] 2 = [0; 2] /\ map (eps_result F) [0; 1; 2; 3] = [Some 1; Some 2; Some 1; Some 1]%Z /\
+  hv_ind_lcs (fun _ _ => 0) [6; 6]%Z F [] 2 = [3; 0] /\
+  hv_ind_lcs (fun _ _ => 0) [] F [] 4 = [2; 1; 0; 3] /\
+  below_ref [6; 6]%Z F /\ mutually_nondominated F /\
+  ss_step (hv_ind_lc (fun _ _ => 0) [6; 6]%Z) [[1; 5]; [3; 3]; [5; 1]]%Z [2; 2]%Z = [[1; 5]; [2; 2]; [5; 1]]%Z.
+Proof. exact coded_indicator_examples. Qed.
+Print Assumptions C14_coded_indicator_examples.
+
+(* ------------------------------------------------------------------------------------------ *)
+(* NSGA3Indicator as coded (C14Nsga3.v) *)
+
+Theorem C14_nsga3_niche_selection_valid :
+  forall (T : Type) (maxval : T) (ltb : T -> T -> bool) nZ nA K (pairing : list (pair_t T)),
+    let n := length pairing in
+    1 <= nZ -> nA + K <= n ->
+    (forall j, j < n -> pfirst T (nth j pairing (pdflt T maxval)) = j /\
+                        psecond T (nth j pairing (pdflt T maxval)) < nZ /\
+                        ltb (fst (nth j pairing (pdflt T maxval))) maxval = true) ->
+    let res := n3_select T maxval ltb nZ nA K pairing in
+    length res = K /\ NoDup res /\ forall i, In i res -> i < n - nA.
+Proof. exact n3_select_valid. Qed.
+Print Assumptions C14_nsga3_niche_selection_valid.
+
+Theorem C14_nsga3_association :
+  forall (T : Type) (zero maxval : T) (add sub mul : T -> T -> T) (ltb : T -> T -> bool) Zr j p,
+    Zr <> [] ->
+    (forall i, i < length Zr -> ltb (n3_dist T zero add sub mul (nth i Zr []) p) maxval = true) ->
+    assoc_ok T maxval ltb (length Zr) j (n3_assoc T zero maxval add sub mul ltb Zr j p).
+Proof. exact n3_assoc_spec. Qed.
+Print Assumptions C14_nsga3_association.
+
+Theorem C14_nsga3_least_contributors_valid :
+  forall (T : Type) (zero one maxval eps : T) (add sub mul div : T -> T -> T) (ltb : T -> T -> bool)
+         (solve : list (list T) -> option (list T)) Zr F A K,
+    Zr <> [] -> K <= length F ->
+    n3_finite T zero maxval add sub mul ltb Zr
+      (n3_normalize T zero one maxval eps add sub mul div ltb solve (A ++ F)) ->
+    let res := nsga3_lcs T zero one maxval eps add sub mul div ltb solve Zr F A K in
+    length res = K /\ NoDup res /\ forall i, In i res -> i < length F.
+Proof. exact nsga3_lcs_valid. Qed.
+Print Assumptions C14_nsga3_least_contributors_valid.
+
+Theorem C14_selection_valid_on_the_call_made :
+  forall (lcs : list point -> list point -> nat -> list nat) r S mu,
+    1 <= mu <= length r -> (forall i, i < length r -> 1 <= nth i r 0) ->
+    let o := select_with_ranks lcs r S mu in
+    (o_K o <= length (o_front o) -> valid_call lcs (pts S (o_front o)) (pts S (o_archive o)) (o_K o)) ->
+    (count_true (o_sel o) = mu /\ length (o_sel o) = length r) /\
+    forall i j, i < length r -> j < length r ->
+      nth i (o_sel o) false = true -> nth j (o_sel o) false = false -> nth i r 0 <= nth j r 0.
+Proof. exact selection_valid_on_call. Qed.
+Print Assumptions C14_selection_valid_on_the_call_made.
+
+Theorem C14_nsga3_example :
+  let F := q_pts [[1; 5]; [2; 3]; [4; 2]; [5; 1]]%Z in
+  let Zr := q_pts [[1; 0]; [0; 1]]%Z in
+  n3_finite Q 0%Q (1000000 # 1)%Q Qplus Qminus Qmult qlt Zr
+    (n3_normalize Q 0%Q 1%Q (1000000 # 1)%Q (1 # 100000)%Q Qplus Qminus Qmult Qdiv qlt (fun _ => None) ([] ++ F)) /\
+  q_nsga3 Zr F [] 2 = [2; 1] /\ q_nsga3 Zr F [] 0 = [] /\ length (q_nsga3 Zr F [] 4) = 4.
+Proof. exact nsga3_example. Qed.
+Print Assumptions C14_nsga3_example.
+
+(* ------------------------------------------------------------------------------------------ *)
+(* CrowdingDistance = its definition (rational instance, any key-ordered sort) *)
+
+Theorem C14_crowding_distance_is_definition :
+  forall (keep : Q) (sort : list (Q * nat) -> list (Q * nat)),
+    (forall l, Permutation.Permutation (sort l) l) -> (forall l, Sorted.StronglySorted key_le (sort l)) ->
+  forall F A j,
+    (inject_Z (Z.of_nat (length (hd [] F))) < keep)%Q -> j < length F ->
+    (nth j (cd_distances Q 0%Q keep Qplus Qminus Qdiv Qeq_bool sort F A) 0%Q == cd_def keep sort F A j)%Q /\
+    (bnd_any sort F A (seq 0 (length (hd [] F))) j = true ->
+     nth j (cd_distances Q 0%Q keep Qplus Qminus Qdiv Qeq_bool sort F A) 0%Q = keep).
+Proof. exact cd_distances_meaning. Qed.
+Print Assumptions C14_crowding_distance_is_definition.
+
+Theorem C14_crowding_least_contributor_first_minimum :
+  forall (keep : Q) (sort : list (Q * nat) -> list (Q * nat)),
+    (forall l, Permutation.Permutation (sort l) l) -> (forall l, Sorted.StronglySorted key_le (sort l)) ->
+  forall F A,
+    (inject_Z (Z.of_nat (length (hd [] F))) < keep)%Q -> 2 <= length F ->
+    let i0 := cd_lc Q 0%Q keep Qplus Qminus Qdiv qltb Qeq_bool sort F A in
+    i0 < length F /\
+    (forall j, j < length F -> (cd_def keep sort F A i0 <= cd_def keep sort F A j)%Q) /\
+    (forall j, j < i0 -> (cd_def keep sort F A i0 < cd_def keep sort F A j)%Q).
+Proof. exact cd_lc_meaning. Qed.
+Print Assumptions C14_crowding_least_contributor_first_minimum.
+
+(* the shape of a term: neighbours' key difference over the key range, between 0 and 1 *)
+Theorem C14_crowding_term_shape :
+  forall (l : list (Q * nat)) j,
+    Sorted.StronglySorted key_le l ->
+    (0 <= term_of l j)%Q /\ (term_of l j <= 1)%Q /\
+    forall df, nbr_diff l j = Some df ->
+      term_of l j = (df / range_of l)%Q /\
+      exists p, 0 < p /\ p + 1 < length l /\ snd (nth p l qd0) = j /\
+                df = (fst (nth (p + 1) l qd0) - fst (nth (p - 1) l qd0))%Q.
+Proof. exact term_shape. Qed.
+Print Assumptions C14_crowding_term_shape.
+
+Theorem C14_crowding_model_sort_ok :
+  (forall l, Permutation.Permutation (cd_isort Q qltb l) l) /\
+  (forall l, Sorted.StronglySorted key_le (cd_isort Q qltb l)).
+Proof. exact (conj cd_isort_perm cd_isort_sorted). Qed.
+Print Assumptions C14_crowding_model_sort_ok.
+
+Theorem C14_crowding_distance_valid_on_integer_points :
+  forall keep, valid_oracle (cdq_lcs keep).
+Proof. exact cdq_lcs_valid. Qed.
+Print Assumptions C14_crowding_distance_valid_on_integer_points.
+
+Theorem C14_crowding_example :
+  let F := [[1; 5]; [2; 3]; [4; 2]; [5; 1]]%Z in
+  map Qred (cd_distances Q 0%Q 1000%Q Qplus Qminus Qdiv Qeq_bool (cd_isort Q qltb) (cq_pts F) []) =
+    [1000%Q; (3 # 2)%Q; (5 # 4)%Q; 1000%Q] /\
+  cdq_lcs 1000%Q F [] 4 = [2; 1; 0; 3] /\
+  map (fun j => Qred (cd_def 1000%Q (cd_isort Q qltb) (cq_pts F) [] j)) [0; 1; 2; 3] =
+    [1000%Q; (3 # 2)%Q; (5 # 4)%Q; 1000%Q].
+Proof. exact crowding_example. Qed.
+Print Assumptions C14_crowding_example.
+
+(* ------------------------------------------------------------------------------------------ *)
+(* variation and mating-selection operators as coded (C14Var.v), rational instance *)
+
+Theorem C14_sbx_children_in_box :
+  forall (two half tol nexpp iexpp : Q) (abs : Q -> Q) (pow : Q -> Q -> Q) prob lower upper p1 p2 us,
+    box_ok lower upper -> in_box lower upper p1 -> in_box lower upper p2 ->
+    let r := sbx Q 0%Q 1%Q two half tol Qplus Qminus Qmult Qdiv abs pow qltb nexpp iexpp prob lower upper p1 p2 us in
+    in_box lower upper (fst (fst r)) /\ in_box lower upper (snd (fst r)).
+Proof. exact sbx_in_box. Qed.
+Print Assumptions C14_sbx_children_in_box.
+
+Theorem C14_sbx_recomputed_coordinate_in_box :
+  forall (two half tol nexpp iexpp : Q) (abs : Q -> Q) (pow : Q -> Q -> Q) prob lo hi x1 x2 us,
+    (lo <= hi)%Q ->
+    let r := sbx_coord Q 0%Q 1%Q two half tol Qplus Qminus Qmult Qdiv abs pow qltb nexpp iexpp prob lo hi x1 x2 us in
+    (fst (fst r) = x1 /\ snd (fst r) = x2) \/
+    ((lo <= fst (fst r) <= hi)%Q /\ (lo <= snd (fst r) <= hi)%Q).
+Proof. exact sbx_recomputed_coordinate_in_box. Qed.
+Print Assumptions C14_sbx_recomputed_coordinate_in_box.
+
+Theorem C14_polynomial_mutation_child_in_box :
+  forall (two half nm1 inm1 : Q) (pow : Q -> Q -> Q) prob lower upper p us,
+    box_ok lower upper -> in_box lower upper p ->
+    in_box lower upper (fst (pm Q 0%Q 1%Q two half Qplus Qminus Qmult Qdiv pow qltb nm1 inm1 prob lower upper p us)).
+Proof. exact pm_in_box. Qed.
+Print Assumptions C14_polynomial_mutation_child_in_box.
+
+Theorem C14_polynomial_mutation_mutated_coordinate_in_box :
+  forall (two half nm1 inm1 : Q) (pow : Q -> Q -> Q) prob lo hi x us,
+    (lo <= hi)%Q -> qltb (hd 0%Q us) prob = true -> (0 <= hd 0%Q (tl us) <= 1)%Q ->
+    (lo <= fst (pm_coord Q 0%Q 1%Q two half Qplus Qminus Qmult Qdiv pow qltb nm1 inm1 prob lo hi x us) <= hi)%Q.
+Proof. exact pm_mutated_coordinate_in_box. Qed.
+Print Assumptions C14_polynomial_mutation_mutated_coordinate_in_box.
+
+Theorem C14_tournament_selection_returns_best_drawn :
+  forall (key : nat -> nat) (drawn : list nat), drawn <> [] ->
+    let r := tournament (fun i j => key i <? key j) drawn in
+    In r drawn /\ forall d, In d drawn -> key r <= key d.
+Proof. exact tournament_spec. Qed.
+Print Assumptions C14_tournament_selection_returns_best_drawn.
+
+Theorem C14_elitist_selection_selects_mu_best :
+  forall (key : nat -> nat) (sort : list nat -> list nat),
+    (forall l, Permutation.Permutation (sort l) l) ->
+    (forall l, Sorted.StronglySorted (fun a b => key a <= key b) (sort l)) ->
+  forall n mu, mu <= n ->
+    let sel := elitist sort n mu in
+    length sel = n /\ count_true sel = mu /\
+    forall i j, i < n -> j < n -> nth i sel false = true -> nth j sel false = false -> key i <= key j.
+Proof. exact elitist_spec. Qed.
+Print Assumptions C14_elitist_selection_selects_mu_best.
+
+Theorem C14_elitist_model_sort_ok :
+  forall key, (forall l, Permutation.Permutation (pos_isort key l) l) /\
+              (forall l, Sorted.StronglySorted (fun a b => key a <= key b) (pos_isort key l)).
+Proof. exact (fun key => conj (pos_isort_perm key) (pos_isort_sorted key)). Qed.
+Print Assumptions C14_elitist_model_sort_ok.
+
+Theorem C14_variation_example :
+  let lower := [0; 0]%Q in let upper := [1; 1]%Q in
+  box_ok lower upper /\ in_box lower upper [1 # 4; 1 # 2]%Q /\ in_box lower upper [3 # 4; 1 # 2]%Q /\
+  (let r := sbx Q 0%Q 1%Q 2%Q (1 # 2)%Q (1 # 10000000)%Q Qplus Qminus Qmult Qdiv Qabs.Qabs (fun x _ => x) qltb (-21)%Q (1 # 21)%Q
+              1%Q lower upper [1 # 4; 1 # 2]%Q [3 # 4; 1 # 2]%Q [1 # 2; 1 # 4; 3 # 4; 1 # 8]%Q in
+   in_box lower upper (fst (fst r)) /\ in_box lower upper (snd (fst r)) /\ length (snd r) = 0) /\
+  tournament (fun i j => nth i [3; 1; 2; 1; 5] 0 <? nth j [3; 1; 2; 1; 5] 0) [0; 3; 1] = 3 /\
+  elitist (pos_isort (fun i => nth i [3; 1; 2; 1; 5] 0)) 5 2 = [false; true; false; true; false].
+Proof. exact variation_example. Qed.
+Print Assumptions C14_variation_example.
